@@ -20,13 +20,20 @@ def run(F, rep):
     if len(rets) != 1:
         raise AnalysisBroken('traverseHierarchyAndRemoveIfEmpty: %d returns' % len(rets))
     called = {c.get('fn') for c in walk(rets[0]) if c.get('k') == 'Call'}
+    from engines import predicate_body
+    for c_ in list(walk(rets[0])):
+        if c_.get('k') == 'Call' and not c_.get('opc'):
+            pb_ = predicate_body(F, c_)
+            if pb_ is not None:
+                called |= {x.get('fn') for x in walk(pb_[1]) if x.get('k') == 'Call'}
     for g in ('variableCount', 'resetCount', 'componentCount', 'math', 'isImport', 'name', 'id'):
         rep.check(g in called, 'C19.C1', 'component|' + g, th.where(rets[0]), 'a component is declared empty without looking at %s(): clean() would remove a component that still has it' % g, 'consulted')
     cl = F.fn1('libcellml::Model::clean')
     ru = [c for c in cl.walk() if c.get('k') == 'Call' and c.get('fn') == 'removeUnits']
     if len(ru) != 1:
         raise AnalysisBroken('Model::clean: removeUnits call not found')
-    rc = ff(cl).rendered_conds_at(ru[0]) or set()
+    from engines import facts_x
+    rc = facts_x(F, cl, ru[0])
     txt = ' '.join(c for c, t in rc)
     for g, want in (('isImport()', False), ('name().empty()', True), ('id().empty()', True), ('unitCount() == 0', True)):
         okc = any(g in c and t == want for c, t in rc)
